@@ -372,7 +372,7 @@ impl Dom for Exact {
         match op {
             U::Neg => self.mk(-a.v, a.maj, a.g),
             U::Abs => self.mk(a.v.abs(), a.maj, a.g),
-            U::Square => self.mk(a.v * a.v, a.maj * a.maj, 2 * a.g),
+            U::Square => self.mk(a.v * a.v, a.maj * a.maj, a.g.saturating_mul(2)),
             _ => {
                 self.ok = false;
                 *a
@@ -383,7 +383,7 @@ impl Dom for Exact {
         match op {
             B::Add => self.mk(a.v + b.v, a.maj + b.maj, a.g.max(b.g)),
             B::Sub => self.mk(a.v - b.v, a.maj + b.maj, a.g.max(b.g)),
-            B::Mul => self.mk(a.v * b.v, a.maj * b.maj, a.g + b.g),
+            B::Mul => self.mk(a.v * b.v, a.maj * b.maj, a.g.saturating_add(b.g)),
             B::Min => self.mk(
                 if a.v < b.v { a.v } else { b.v },
                 a.maj.max(b.maj),
